@@ -263,6 +263,7 @@ def pools():
     P["PX1"] = [[a, b] for a in kx for b in kx]
     P["PX2"] = [[x, y, z] for x in ["wB", "rB"] for y in ["rA", "-/e=rA", "oA/e=oA"] for z in ["wA", "-/e=wA", "pA"]]
     P["PX3"] = [[a, b] for a in ["rA/e=rA", "oA/e=oA", "rB/e=wA", "wB/e=rA", "wA/e=rB"] for b in ["rA", "wA"]] + [[b, a] for a in ["rA/e=rA", "oA/e=oA", "rB/e=wA", "wB/e=rA", "wA/e=rB"] for b in ["rA", "wA"]]
+    P["PQ"] = [["rB/e=pA", "wA"], ["wA", "wB/e=rA"], ["wB/e=rA/par", "wA"], ["wA/r=wR0", "wA/r=wR0"], ["rA/r=wR0", "wA/r=rR0"], ["wA", "rB/e=oA/par"]]
     P["PC"] = [
         ["wC", "rA", "wA"], ["wB,rC", "rA", "wA,wC"], ["wC/f=hA", "wC/f=nA", "rC"], ["wB", "wC", "rA", "wA"],
     ]
@@ -285,6 +286,9 @@ def main():
         quick += [(p, s) for s in P[p][:3]]
     quick += [("P7", P["P7"][0]), ("PC", P["PC"][0])]
     quick += [("PI", s) for s in P["PI"][:3]] + [("PE", s) for s in P["PE"][:3]]
+    # tables reached only through entry views (by the earlier or by the later task), ParSystem entry views,
+    # and tasks that conflict on a component and on a resource at once
+    quick += [("PQ", s) for s in P["PQ"]]
     qset = {tuple(s) for _, s in quick}
     extra = []
     for p, lst in P.items():
